@@ -22,6 +22,62 @@ CHECKS = {
         'technique': 'Coq proof over a Gallina model of the escape routine + generated-parameter obligations + '
                      'vm_compute correspondence against every textual class',
     },
+    'C01': {
+        'text': 'Partial proof. Kernel-checked well-formedness of every segment/field/datatype row of all 12 regenerated '
+                'version tables (Oblig/Wf_v*.v, WfAll.v: contiguous NAME_1..NAME_n rows, resolvable datatypes) plus the '
+                'round-trip theorems of Properties/C01.v about the executable Gallina model of parse_segment/'
+                'parse_field/parse_component and to_er7 (Model/Parser.v, Model/Encode.v); the model is run by '
+                'vm_compute on the same generated segment lines as hl7apy and the tree dump and encoding are compared '
+                'inside Coq; the oracle checks parse_x(text).to_er7()==text on canonical segments, fields, components '
+                'and whole messages (group finding on and off) of every version.',
+        'design_ref': 'DESIGN.md section 7 C01',
+        'note': 'Trusted: Coq kernel + vm_compute; translators gen_tables.py/gen_params.py; correspondence harness '
+                'segcorr.py. Message-level parse (header, group search) is not yet in the model: that clause is decided '
+                'by the oracle only. Leaves of DT/TM/DTM/NM/SI are restricted to values the factory keeps verbatim.',
+        'technique': 'Coq model of the segment parser/encoder + table obligations by vm_compute + model/implementation '
+                     'differential on generated segment lines',
+    },
+    'C07': {
+        'text': 'Proof (Coq): for every valid delimiter set and version, Message._set_encoding_chars/_get_encoding_chars '
+                'round-trip with TRUNCATION kept exactly from v2.7 (C07_get_set, C07_truncation_iff), the header spells '
+                'the set (C07_header), split_msh of the rendered header recovers it (C07_reparse), descendants inherit '
+                '(C07_inherit), missing/duplicated characters are rejected (C07_invalid_rejected), to_mllp framing '
+                '(C07_mllp); model in Model/MsgEc.v + Model/Header.v run against hl7apy on random delimiter sets of all '
+                'versions. The identically-encoding-tree clause is decided by the oracle.',
+        'design_ref': 'DESIGN.md section 7 C07',
+        'note': 'Trusted: Coq kernel + vm_compute, gen_params.py, harness c07.py/headercorr.py. No axioms. "." is '
+                'excluded as a delimiter (the version string contains it); single-character delimiters; ASCII.',
+        'technique': 'Coq proof over a model of the encoding-character setter/getter and header splitter + differential '
+                     'run on random delimiter sets',
+    },
+    'C15': {
+        'text': 'Partial proof. For ALL strings, _split_msh/get_message_type/get_message_info (and the header step of '
+                'parse_message) end in Ok, ParserError or InvalidEncodingChars - never IndexError/KeyError/TypeError/'
+                'AttributeError (C15_header_total etc., Model/Header.v with Python partial operations explicit). The '
+                'parse/encode/validate clauses are decided by the oracle on byte-level mutants of valid messages of '
+                'every version and on junk, both levels, both group modes; the header model is compared with the code '
+                'on all of them.',
+        'design_ref': 'DESIGN.md section 7 C15',
+        'note': 'Trusted: Coq kernel + vm_compute, harness c15.py/headercorr.py. No axioms. The tree parser/encoder/'
+                'validator are not covered by a crash-freedom theorem yet (oracle only). ASCII domain for the model.',
+        'technique': 'Coq totality proof of the header functions + outcome-class differential + crash oracle on mutants',
+    },
+    'C16': {
+        'text': 'Proof (Coq) about a per-connection Gallina model of the MLLP server (Model/Mllp.v): to_mllp framing '
+                '(C16_frame), the reader\'s result depends only on the concatenation of the TCP chunks and not on the '
+                'size of the first recv (C16_chunking, unbounded), extraction returns exactly the framed ER7 text iff the '
+                'payload has no empty line (C16_extract), exactly one correctly routed handler call and reply '
+                '(C16_route_one/_unsupported/_invalid/_at_most_one), rejection of malformed/truncated/undecodable input '
+                '(C16_reject_*). The model is compared with a live MLLPServer on thousands of connections (all 1-2-cut '
+                'splittings of short frames, random splits, 1..32 simultaneous clients). Client isolation, time-outs and '
+                'kernel buffering are observed, not proved.',
+        'design_ref': 'DESIGN.md section 7 C16',
+        'note': 'Trusted: Coq kernel + vm_compute; gen_params.py (MLLP bytes); loopback-socket harness c16.py. No axioms. '
+                'Modelled: ASCII streams, abstract handlers; EOF and time-out not distinguished. Partial for the '
+                'schedule/concurrency half (stress observation only).',
+        'technique': 'Coq proof over a byte-fed state-machine model of the MLLP reader/router + differential against a live '
+                     'server',
+    },
 }
 
 NOT_YET = {}
